@@ -76,6 +76,9 @@ def models():
         # one gate value per context row, broadcast over the features (the two directions must count it alike)
         "Flow(GLU row gate + affine|StandardNormal)": (lambda: FL.base.Flow(TR.CompositeTransform([TR.GatedLinearUnit(), TR.PointwiseAffineTransform(shift=torch.tensor([0.3, -0.2, 0.1]), scale=torch.tensor([1.5, 0.7, 2.0]))]), D.StandardNormal([3])), (3,), "required", 1, False),
         "Flow(GLU + embedding to one gate|CondNormal)": (lambda: perturb(FL.base.Flow(TR.GatedLinearUnit(), D.ConditionalDiagonalNormal([3], context_encoder=torch.nn.Linear(1, 6)), embedding_net=torch.nn.Linear(4, 1)), 17), (3,), "required", 4, False),
+        # a squeeze of a non-square image in front of a channel-mixing layer: forward and inverse routes must be inverse to each other
+        "Flow(Squeeze + 1x1 convolution|StandardNormal [4,1,3]) on 1x2x6 images": (lambda: perturb(FL.base.Flow(TR.CompositeTransform([TR.SqueezeTransform(2), conv_with_shuffle(4)]), D.StandardNormal([4, 1, 3])), 13), (1, 2, 6), "none", 0, False),
+        "Flow(Squeeze + 1x1 convolution|StandardNormal [4,3,1]) on 1x6x2 images": (lambda: perturb(FL.base.Flow(TR.CompositeTransform([TR.SqueezeTransform(2), conv_with_shuffle(4)]), D.StandardNormal([4, 3, 1])), 14), (1, 6, 2), "none", 0, False),
         "SimpleRealNVP": (lambda: perturb(FL.SimpleRealNVP(4, 8, num_layers=2, num_blocks_per_layer=1)), (4,), "none", 0, False),
         "StandardNormal": (lambda: D.StandardNormal([3]), (3,), "optional", 3, False),
         "ConditionalDiagonalNormal/marker": (lambda: D.ConditionalDiagonalNormal([2]), (2,), "required", 4, True),
@@ -119,6 +122,25 @@ def task(t):
         out["drift"].append("%s cannot be built: %r" % (name, e))
         return out
     m.eval()
+    if history == "after_training_round":
+        # the life-cycle around a call (Session.tla: Eval, Call, Train, TrainStep, Eval): the model was sampled from in
+        # an earlier evaluation phase, trained on, and is evaluated again - whatever an earlier phase left behind
+        # (cached factors, statistics) must not make sampler and density disagree now
+        try:
+            g0 = torch.Generator().manual_seed(seed + 77)
+            with torch.no_grad():
+                if cmode == "required":
+                    m.sample(2, context=make_context(torch, 2, width, marker, g0))
+                else:
+                    m.sample(2)
+            m.train()
+            with torch.no_grad():
+                for p_ in m.parameters():
+                    p_.add_(0.15 * torch.randn(p_.shape, generator=g0))
+            m.eval()
+        except Exception as e:
+            out["drift"].append("%s: the training round before the calls failed: %r" % (name, e))
+            return out
     g = torch.Generator().manual_seed(seed + 11)
     isflow = name.startswith("Flow") or name in ("MaskedAutoregressiveFlow", "SimpleRealNVP")
     for st in states:
@@ -243,7 +265,7 @@ def main(run, replay=None):
         return
     fails = []
     seeds = (0, 1, 2) if thorough else (0,)
-    for out in pmap(task, [(n, states, run.seed * 10 + s, h) for n in models() for s in seeds for h in ("fresh", "after_load")]):
+    for out in pmap(task, [(n, states, run.seed * 10 + s, h) for n in models() for s in seeds for h in ("fresh", "after_load", "after_training_round")]):
         run.evaluations += out["n"]
         fails += out["fails"]
         for d in out["drift"]:
@@ -271,7 +293,7 @@ def main(run, replay=None):
         if key in seen:
             continue
         seen.add(key)
-        run.violation({"model": f["model"], "clause": f["clause"], "op": f["op"]}, "%s%s %s(n=%d, rows=%d, batch_size=%s): %s" % (f["model"], " [built under another seed, this checkpoint loaded]" if f.get("history") == "after_load" else "", f["op"], f["n"], f["rows"], f["bs"], f["detail"]), {k: v for k, v in f.items() if k != "detail"})
+        run.violation({"model": f["model"], "clause": f["clause"], "op": f["op"]}, "%s%s %s(n=%d, rows=%d, batch_size=%s): %s" % (f["model"], {"after_load": " [built under another seed, this checkpoint loaded]", "after_training_round": " [sampled from, trained on, evaluated again]"}.get(f.get("history"), ""), f["op"], f["n"], f["rows"], f["bs"], f["detail"]), {k: v for k, v in f.items() if k != "detail"})
     run.exhaustive = True
     run.assumptions = [
         "the distributional clause (empirical CDF convergence) is not decided by this technique: it is replaced by the push-forward identity under a harness-controlled generator plus C03 / C05; torch's generators are trusted",
